@@ -207,7 +207,7 @@ impl<'a> Gen<'a> {
     fn lit(&mut self, t: &Ty) -> Expr {
         match t {
             Ty::Int => Expr::Int(*self.tape.pick(&[0i64, 1, 2, 3, 5, 7, -1, -4, 10, 63, 64, 100])),
-            Ty::Float => Expr::Float(*self.tape.pick(&[0.0, 1.0, 2.5, -1.5, 0.5, 100.0])),
+            Ty::Float => Expr::Float(*self.tape.pick(&[0.0, 1.0, 2.5, -1.5, 0.5, 100.0, -0.0])),
             Ty::Bool => Expr::Bool(self.tape.bool()),
             Ty::Str => Expr::Str(self.tape.pick(&["", "a", "bc", "żó", "x y"]).to_string()),
             Ty::Void => Expr::Void,
@@ -377,6 +377,9 @@ impl<'a> Gen<'a> {
             Ty::Int | Ty::Float | Ty::Bool | Ty::Str | Ty::Void => self.lit(t),
             Ty::Arr(e) => {
                 let n = self.tape.below(3);
+                if n == 0 {
+                    return self.empty_arr(e);
+                }
                 Expr::Array((0..n).map(|_| self.leaf(e)).collect())
             }
             Ty::Tup(ts) => Expr::Tuple(ts.iter().map(|x| self.leaf(x)).collect()),
@@ -486,7 +489,14 @@ impl<'a> Gen<'a> {
     }
 
     fn float_expr(&mut self, depth: usize) -> Expr {
-        match self.tape.weighted(&[3, 3, 4, 1]) {
+        let w_it = if depth >= 2 { self.p.iterators.min(2) } else { 0 };
+        match self.tape.weighted(&[3, 3, 4, 1, w_it]) {
+            4 => {
+                let it = self.iter_expr(&Ty::Float, depth - 1);
+                let op = if self.tape.bool() { "$+" } else { "$*" };
+                self.label("float sum/product");
+                Expr::Sum(op, Ty::Float, Box::new(it))
+            }
             0 => self.lit(&Ty::Float),
             1 => self.var_of_type(&Ty::Float).unwrap_or_else(|| self.lit(&Ty::Float)),
             2 => {
@@ -525,7 +535,13 @@ impl<'a> Gen<'a> {
     }
 
     fn str_expr(&mut self, depth: usize) -> Expr {
-        match self.tape.weighted(&[3, 3, 4, 2, 1]) {
+        let w_it = if depth >= 2 { self.p.iterators.min(2) } else { 0 };
+        match self.tape.weighted(&[3, 3, 4, 2, 1, w_it]) {
+            5 => {
+                let it = self.iter_expr(&Ty::Str, depth - 1);
+                self.label("string sum");
+                Expr::Sum("$+", Ty::Str, Box::new(it))
+            }
             0 => self.lit(&Ty::Str),
             1 => self.var_of_type(&Ty::Str).unwrap_or_else(|| self.lit(&Ty::Str)),
             2 => Expr::Bin("+", Box::new(self.expr(&Ty::Str, depth - 1)), Box::new(self.expr(&Ty::Str, depth - 1))),
@@ -539,7 +555,7 @@ impl<'a> Gen<'a> {
     }
 
     fn slice_bounds(&mut self) -> (Option<Box<Expr>>, Option<Box<Expr>>) {
-        let mut b = |g: &mut Self| if g.tape.bool() { Some(Box::new(Expr::Int(g.tape.range(-3, 3)))) } else { None };
+        let b = |g: &mut Self| if g.tape.bool() { Some(Box::new(Expr::Int(g.tape.range(-3, 3)))) } else { None };
         (b(self), b(self))
     }
 
@@ -549,6 +565,9 @@ impl<'a> Gen<'a> {
         match self.tape.weighted(&[4, 3, 3, 2, 2, w_it]) {
             0 => {
                 let n = self.tape.below(4);
+                if n == 0 {
+                    return self.empty_arr(elem);
+                }
                 Expr::Array((0..n).map(|_| self.expr(elem, depth - 1)).collect())
             }
             1 => self.var_of_type(&t).unwrap_or_else(|| self.leaf(&t)),
@@ -640,7 +659,19 @@ impl<'a> Gen<'a> {
             return v;
         }
         let n = self.tape.below(5);
+        if n == 0 {
+            return self.empty_arr(elem);
+        }
         Expr::Array((0..n).map(|_| self.expr(elem, depth.saturating_sub(1))).collect())
+    }
+
+    /// an empty array whose static element type is `elem` where that matters: `[]` has element
+    /// type never, and `$+` / `$*` choose their neutral element by the static element type
+    fn empty_arr(&mut self, elem: &Ty) -> Expr {
+        match elem {
+            Ty::Float | Ty::Str => Expr::Repeat(Box::new(self.lit(elem)), Box::new(Expr::Int(0))),
+            _ => Expr::Array(vec![]),
+        }
     }
 
     /// an expression of scalar type `t` computed by an iterator reducer
@@ -740,13 +771,18 @@ impl<'a> Gen<'a> {
                     self.declare(&name, c.ty.clone());
                     return Stmt::Let(name, Box::new(Stmt::Expr(Expr::Var(c.name))));
                 }
-                let inner = match self.tape.weighted(&[5, 2, 2, 1]) {
+                let inner = match self.tape.weighted(&[5, 2, 2, 1, 2]) {
                     0 => Ty::Int,
                     1 => Ty::Str,
                     2 => Ty::Int.or(Ty::Str),
-                    _ => Ty::arr(Ty::Int),
+                    3 => Ty::arr(Ty::Int),
+                    _ => Ty::Float,
                 };
-                let init = self.expr(&inner, depth.saturating_sub(1));
+                let init = if inner == Ty::Float && self.tape.chance(1, 3) {
+                    Expr::Float(*self.tape.pick(&[0.0, -0.0]))
+                } else {
+                    self.expr(&inner, depth.saturating_sub(1))
+                };
                 self.label("cell");
                 self.declare(&name, Ty::cell(inner.clone()));
                 Stmt::Let(name, Box::new(Stmt::Expr(Expr::MutNew(inner, Box::new(init)))))
@@ -1093,12 +1129,24 @@ impl<'a> Gen<'a> {
             2 => {
                 // for x in iterator { body }
                 self.label("for");
-                let elem = if self.tape.bool() { Ty::Int } else { Ty::Str };
-                let it = self.iter_expr(&elem, depth.saturating_sub(1));
+                let mixed = self.tape.chance(1, 3);
+                let members = vec![self.gen_scalar_ty(), self.gen_scalar_ty()];
+                let elem = if mixed { Ty::union(members.clone()) } else if self.tape.bool() { Ty::Int } else { Ty::Str };
+                let it = if mixed {
+                    // elements of different run-time types: the same match runs on each of them
+                    let n = 2 + self.tape.below(4);
+                    Expr::Iter(Box::new(Expr::Array((0..n).map(|_| self.expr(&elem, depth.saturating_sub(1))).collect())))
+                } else {
+                    self.iter_expr(&elem, depth.saturating_sub(1))
+                };
                 let var = self.name_for_decl();
                 self.scopes.push(vec![]);
                 self.declare(&var, elem);
                 let mut body = vec![];
+                if mixed {
+                    self.label("match repeated on values of different types");
+                    body.push(self.match_on(Expr::Var(var.clone()), members, depth.saturating_sub(1), None));
+                }
                 for _ in 0..1 + self.tape.below(2) {
                     if let Some(s) = self.stmt(depth.saturating_sub(1)) {
                         body.push(s);
@@ -1145,7 +1193,6 @@ impl<'a> Gen<'a> {
     }
 
     fn match_stmt(&mut self, depth: usize, value: Option<&Ty>) -> Stmt {
-        self.label("match");
         // scrutinee: a union of scalars (run-time type unambiguous)
         let members: Vec<Ty> = {
             let mut ms = vec![self.gen_scalar_ty(), self.gen_scalar_ty()];
@@ -1156,6 +1203,21 @@ impl<'a> Gen<'a> {
         };
         let st = Ty::union(members.clone());
         let scrutinee = self.expr(&st, depth.saturating_sub(1));
+        self.match_on(scrutinee, members, depth, value)
+    }
+
+    fn type_arm(&mut self, t: Ty, depth: usize, value: Option<&Ty>) -> Arm {
+        let v = self.name_for_decl();
+        self.scopes.push(vec![]);
+        self.declare(&v, t.clone());
+        let body = self.block(depth.saturating_sub(1), 1, value);
+        self.scopes.pop();
+        Arm::Type(v, t, body)
+    }
+
+    fn match_on(&mut self, scrutinee: Expr, members: Vec<Ty>, depth: usize, value: Option<&Ty>) -> Stmt {
+        self.label("match");
+        let st = Ty::union(members.clone());
         let mut arms = vec![];
         // value arms first
         for _ in 0..self.tape.below(3) {
@@ -1165,29 +1227,36 @@ impl<'a> Gen<'a> {
             let body = self.block(depth.saturating_sub(1), 1, value);
             arms.push(Arm::Values(cands, body));
         }
-        // type arms covering every member, or a default arm
-        if self.tape.bool() {
-            for m in st.members() {
-                let v = self.name_for_decl();
-                self.scopes.push(vec![]);
-                self.declare(&v, m.clone());
-                let body = self.block(depth.saturating_sub(1), 1, value);
-                self.scopes.pop();
-                arms.push(Arm::Type(v, m.clone(), body));
+        match self.tape.weighted(&[3, 3, 3]) {
+            0 => {
+                // type arms covering every member
+                for m in st.members() {
+                    arms.push(self.type_arm(m.clone(), depth, value));
+                }
+                self.label("match with type arms");
             }
-            self.label("match with type arms");
-        } else {
-            if self.tape.bool()
-                && let Some(m) = st.members().first()
-            {
-                let v = self.name_for_decl();
-                self.scopes.push(vec![]);
-                self.declare(&v, (*m).clone());
-                let body = self.block(depth.saturating_sub(1), 1, value);
-                self.scopes.pop();
-                arms.push(Arm::Type(v, (*m).clone(), body));
+            1 => {
+                // one member, then a default arm
+                if self.tape.bool()
+                    && let Some(m) = st.members().first()
+                {
+                    arms.push(self.type_arm((*m).clone(), depth, value));
+                }
+                arms.push(Arm::Other(self.block(depth.saturating_sub(1), 1, value)));
             }
-            arms.push(Arm::Other(self.block(depth.saturating_sub(1), 1, value)));
+            _ => {
+                // overlapping type arms, narrower first: the first arm that covers the value wins
+                let ms: Vec<Ty> = st.members().into_iter().cloned().collect();
+                let first = ms[self.tape.below(ms.len())].clone();
+                arms.push(self.type_arm(first.clone(), depth, value));
+                if ms.len() > 2 || self.tape.bool() {
+                    let second = ms[self.tape.below(ms.len())].clone();
+                    arms.push(self.type_arm(first.or(second), depth, value));
+                }
+                let last = if self.tape.bool() { Ty::Any } else { st.clone() };
+                arms.push(self.type_arm(last, depth, value));
+                self.label("match with overlapping type arms");
+            }
         }
         Stmt::Match(scrutinee, arms)
     }
@@ -1232,16 +1301,21 @@ impl<'a> Gen<'a> {
                         (op, Ty::Int)
                     }
                     Ty::Str => (*self.tape.pick(&["=", "+="]), Ty::Str),
+                    Ty::Float => (*self.tape.pick(&["=", "+=", "-=", "*=", "/="]), Ty::Float),
                     Ty::Arr(_) => (*self.tape.pick(&["=", "+="]), inner.clone()),
                     other => ("=", other.clone()),
                 };
                 let value = match op {
-                    "/=" | "%=" => Expr::Int(*self.tape.pick(&[1i64, 2, 3, -1, 0])),
+                    "/=" | "%=" if vt == Ty::Int => Expr::Int(*self.tape.pick(&[1i64, 2, 3, -1, 0])),
                     "<<=" | ">>=" => Expr::Int(*self.tape.pick(&[0i64, 1, 3, 63, 64])),
                     "**=" => Expr::Int(*self.tape.pick(&[0i64, 1, 2, -1])),
+                    _ if vt == Ty::Float && self.tape.chance(1, 3) => {
+                        self.label("signed zero stored in a float cell");
+                        Expr::Float(*self.tape.pick(&[-0.0, 0.0, -1.0]))
+                    }
                     _ => self.expr(&vt, depth.saturating_sub(1)),
                 };
-                if matches!(op, "/=" | "%=" | "<<=" | ">>=" | "**=") {
+                if vt == Ty::Int && matches!(op, "/=" | "%=" | "<<=" | ">>=" | "**=") {
                     self.label("possibly failing compound assignment");
                 }
                 Stmt::Expr(Expr::Assign(op, Box::new(Expr::Var(c.name)), Box::new(value)))
